@@ -369,8 +369,11 @@ func (c *Conc) Build(p *Policy) seccomp.Policy {
 		if len(c.Pad) > 0 && WholeList(&p.Groups[gi], c.NSys) {
 			sg.Names = append(sg.Names, c.Pad...)
 		}
-		for _, e := range g.Conds {
+		for ei, e := range g.Conds {
 			nc := seccomp.NameWithConditions{Name: c.sysName(e.Num)}
+			if len(e.Conds) == 0 && (gi+ei)%2 == 1 {
+				nc.Conditions = []seccomp.Condition{} // (an entry without conditions: nil or empty)
+			}
 			for _, cd := range e.Conds {
 				arg := uint32(cd.Arg)
 				if cd.Arg >= 0 && cd.Arg <= 5 {
